@@ -22,7 +22,7 @@ run_checks() { # name, ids...
   local name="$1"; shift
   for id in "$@"; do
     local t0=$(date +%s.%N)
-    out=$(VERIF_REPO_OVERRIDE="$SCR" "$HERE/check" "$id" --tier quick 2>&1); rc=$?
+    out=$(VERIF_REPO_OVERRIDE="$SCR" "$HERE/check" "$id" --tier "${SENS_TIER:-quick}" 2>&1); rc=$?
     local t1=$(date +%s.%N)
     # evidence/replays written by an override run are not evidence: restore the committed evidence afterwards
     verdict="MISSED"; [ $rc -eq 1 ] && verdict="CAUGHT"; [ $rc -eq 2 ] && verdict="INCONCLUSIVE"
